@@ -16,10 +16,16 @@
 
    A molecule is its fragment list in arrival order plus the overflow counter; every attribute
    of the Python Molecule the comparison reads (umi, site_location, match_hash, sample, strand, span)
-   is a left fold over that list, exactly as _add_fragment updates it (fold_left = one update per append). *)
+   is a left fold over that list, exactly as _add_fragment updates it (fold_left = one update per append).
+
+   T: the comparison kernel is GENERATED from the working tree on every run (coq/Gen/GenAssign.v, tools/c06_gen.py)
+   and the model is defined WITH it: the guard chains of the three __eq__ and of umi_eq (g_fragment_eq, g_nla_eq,
+   g_chic_eq, g_umi_eq), the match_hash tuples composed with the stores of set_site (g_nla_hash, g_chic_hash), the
+   add_fragment / capacity decision (g_add_decision) and the tag expressions of write_tags (g_tag_rc, g_tag_dup,
+   g_tag_af, g_tag_tf).  Proofs/C06_shape.v connects them to the closed forms the proofs use. *)
 From Coq Require Import ZArith List Bool.
 Import ListNotations.
-From SCMO Require Import Lib.Val.
+From SCMO Require Import Lib.Val Gen.GenAssign.
 Open Scope Z_scope.
 
 (* ---- abstract fragment.  strand: 0 = False (forward), 1 = True (reverse), 2 = None.
@@ -52,10 +58,7 @@ Fixpoint hamming (a b : list Z) : Z :=
   | _, _ => 0
   end.
 Definition umi_eq (d : Z) (fu mu : list Z) : bool :=
-  if zs_eqb fu mu then true
-  else if d =? 0 then false
-  else if negb (Nat.eqb (length fu) (length mu)) then false
-  else hamming fu mu <=? d.
+  g_umi_eq (zs_eqb fu mu) (negb (Nat.eqb (length fu) (length mu))) d (hamming fu mu).
 
 (* ---- collections.Counter in insertion order, most_common(1) = first maximal entry *)
 Fixpoint counter_add (u : list Z) (c : list (list Z * Z)) : list (list Z * Z) :=
@@ -89,9 +92,8 @@ Definition chrom_of (fs : list frag) : Z := match lastf fs with Some f => f_cont
 
 (* match_hash of a fragment; [] stands for None (plain Fragment) *)
 Definition key (c : cfg) (f : frag) : list Z :=
-  if c_cls c =? 1 then [f_strand f; f_contig f; f_site f; f_cell f]
-  else if c_cls c =? 2 then
-    (if c_r c =? 0 then [f_strand f; f_contig f; f_site f; f_cell f] else [f_strand f; f_contig f; f_cell f])
+  if c_cls c =? 1 then g_nla_hash (c_r c) (f_strand f) (f_contig f) (f_site f) (f_cell f)
+  else if c_cls c =? 2 then g_chic_hash (c_r c) (f_strand f) (f_contig f) (f_site f) (f_cell f)
   else [].
 Definition hash_of (c : cfg) (fs : list frag) : list Z :=                                  (* Molecule.match_hash *)
   match lastf fs with Some f => key c f | None => [] end.
@@ -99,18 +101,21 @@ Definition hash_of (c : cfg) (fs : list frag) : list Z :=                       
 (* fragment.__eq__(molecule) *)
 Definition accepts (c : cfg) (f : frag) (m : mol) : bool :=
   let fs := m_frags m in
-  if c_cls c =? 1 then zs_eqb (key c f) (hash_of c fs) && umi_eq (c_d c) (f_umi f) (rep_of fs)
+  let umi_ok := umi_eq (c_d c) (f_umi f) (rep_of fs) in
+  if c_cls c =? 1 then g_nla_eq (negb (zs_eqb (key c f) (hash_of c fs))) umi_ok
   else if c_cls c =? 2 then
-    zs_eqb (key c f) (hash_of c fs)
-    && negb ((0 <? c_r c) && (c_r c <? Z.abs (f_site f - site_of (fs ++ m_ovf m))))
-    && umi_eq (c_d c) (f_umi f) (rep_of fs)
+    g_chic_eq (negb (zs_eqb (key c f) (hash_of c fs))) false false umi_ok (c_r c) (f_site f) (site_of (fs ++ m_ovf m))
   else
-    (f_cell f =? cell_of fs) && (f_strand f =? strand_of fs) && (f_contig f =? chrom_of fs)
-    && negb (c_r c <? Z.min (Z.abs (f_site f - start_of fs)) (Z.abs (f_end f - end_of fs)))
-    && umi_eq (c_d c) (f_umi f) (rep_of fs).
+    g_fragment_eq true true umi_ok (c_r c) (f_cell f) (f_strand f) (f_contig f) (f_site f) (f_end f)
+                  (cell_of fs) (strand_of fs) (chrom_of fs) (start_of fs) (end_of fs).
 
 Definition full (c : cfg) (m : mol) : bool :=
   match c_cap c with Some cap => cap <=? Z.of_nat (length (m_frags m)) | None => false end.
+Definition has_cap (c : cfg) : bool := match c_cap c with Some _ => true | None => false end.
+Definition cap_val (c : cfg) : Z := match c_cap c with Some cap => cap | None => 0 end.
+(* Molecule.add_fragment(fragment, use_hash=True) on a non-empty molecule: 0 refused, 1 added, 2 OverflowError *)
+Definition decide (c : cfg) (f : frag) (m : mol) : Z :=
+  g_add_decision false (accepts c f m) (has_cap c) (Z.of_nat (length (m_frags m))) (cap_val c).
 
 Definition mol_add (m : mol) (f : frag) : mol := {| m_frags := m_frags m ++ [f]; m_ovf := m_ovf m; m_kind := m_kind m |}.
 Definition mol_bump (m : mol) (f : frag) : mol := {| m_frags := m_frags m; m_ovf := m_ovf m ++ [f]; m_kind := m_kind m |}.
@@ -122,7 +127,8 @@ Fixpoint offer (c : cfg) (f : frag) (ms : list mol) : offer_res :=
   match ms with
   | [] => Rejected
   | m :: ms' =>
-      if accepts c f m then (if full c m then Overflowed (mol_bump m f :: ms') else Added (mol_add m f :: ms'))
+      if decide c f m =? 1 then Added (mol_add m f :: ms')
+      else if decide c f m =? 2 then Overflowed (mol_bump m f :: ms')
       else match offer c f ms' with
            | Added r => Added (m :: r)
            | Overflowed r => Overflowed (m :: r)
@@ -167,7 +173,7 @@ Definition assign_ok (c : cfg) (frags : list frag) : list mol :=
 
 (* max_associated_fragments <= 0: the Molecule constructor itself raises OverflowError (uncaught in the
    iterator) for the first fragment that needs a molecule *)
-Definition cap_bad (c : cfg) : bool := match c_cap c with Some cap => cap <=? 0 | None => false end.
+Definition cap_bad (c : cfg) : bool := g_add_decision true false (has_cap c) 0 (cap_val c) =? 2.
 Definition needs_mol (c : cfg) (f : frag) : bool := f_valid f || c_yinv c.
 Definition assign (c : cfg) (frags : list frag) : option (list mol) :=      (* None = OverflowError raised *)
   if cap_bad c then (if existsb (needs_mol c) frags then None else Some [])
@@ -177,16 +183,16 @@ Definition assign (c : cfg) (frags : list frag) : option (list mol) :=      (* N
    c_fixed = true: duplicate bit ASSIGNED (rc > 0) - the repaired code (fix D9);
    c_fixed = false: the bit is only ever set (rc > 0) and otherwise keeps the input value. *)
 Record tagrec := { t_id : Z; t_rc : Z; t_dup : bool; t_af : Z; t_tf : Z; t_qc : bool }.
-Fixpoint tags_from (fixed : bool) (af tf : Z) (rc : Z) (fs : list frag) : list tagrec :=
+Fixpoint tags_from (fixed : bool) (n over : Z) (rc : Z) (fs : list frag) : list tagrec :=
   match fs with
   | [] => []
-  | f :: fs' => {| t_id := f_id f; t_rc := rc;
-                   t_dup := if fixed then 0 <? rc else ((0 <? rc) || f_dup f);
-                   t_af := af; t_tf := tf; t_qc := negb (f_valid f) |}
-                :: tags_from fixed af tf (rc + 1) fs'
+  | f :: fs' => {| t_id := f_id f; t_rc := g_tag_rc n rc;
+                   t_dup := if fixed then g_tag_dup n rc (f_dup f) else ((0 <? rc) || f_dup f);
+                   t_af := g_tag_af n over; t_tf := g_tag_tf n over; t_qc := negb (f_valid f) |}
+                :: tags_from fixed n over (rc + 1) fs'
   end.
 Definition write_tags (fixed : bool) (m : mol) : list tagrec :=
-  let n := Z.of_nat (length (m_frags m)) in tags_from fixed n (n + m_over m) 0 (m_frags m).
+  tags_from fixed (Z.of_nat (length (m_frags m))) (m_over m) 0 (m_frags m).
 
 (* re-tagging history: the same fragments in the same order, carrying the duplicate bits of an earlier run *)
 Definition set_dup (f : frag) (b : bool) : frag :=
